@@ -469,6 +469,14 @@ def inline_helpers(doc, log):
         if fn.get("body") is None:
             continue
         own = owner if owner and not owner.startswith("trait ") else None
+        # a match arm (or if branch value) that is just a helper call gets a block of its own, so that the call sits at statement level
+        for x in list(walk(fn["body"])):
+            if x.get("k") == "match":
+                for arm in x.get("arms", []):
+                    b = arm.get("body")
+                    inner = b["e"] if isinstance(b, dict) and b.get("k") == "try" else b
+                    if isinstance(inner, dict) and inner.get("k") in ("call", "mcall") and callee_of(inner, own) is not None:
+                        arm["body"] = {"k": "block", "stmts": [{"k": "expr", "e": b, "ln": b.get("ln", 0)}], "ln": b.get("ln", 0)}
         for x in list(walk(fn["body"])):
             if x.get("k") == "block":
                 process_block(x, own)
